@@ -1,0 +1,11 @@
+//go:build verif
+
+// Contracts for the deductive checks in /verif (comment-only; not part of normal builds).
+
+package types
+
+//@ func NewNilUID
+//@   trusted builds the constant string of sixteen '0' characters with a bytes.Buffer loop
+//@   mode math
+//@   ensures result == "0000000000000000"
+//@   modifies nothing
